@@ -45,6 +45,25 @@ Theorem C28_discover : forall it, no_staging it = true ->
 Proof. intros it NS. split; [apply discover; exact NS|apply discover_bad; exact NS]. Qed.
 Print Assumptions C28_discover.
 
+(* A plugin whose own name contains "octosql-plugin-" (or starts with it, or is empty): the directory is the prefix
+   plus the name and exactly one prefix is trimmed, so the name comes back unchanged — an instance of C28_discover,
+   spelled out because TrimPrefix is applied to such directory names too. *)
+Theorem C28_discover_prefix_inside_name : forall a b,
+  plugin_name (dir_of (a ++ plugin_prefix ++ b)) = a ++ plugin_prefix ++ b /\
+  plugin_name (dir_of (plugin_prefix ++ b)) = plugin_prefix ++ b /\ plugin_name (dir_of []) = [].
+Proof. intros a b. repeat split; apply plugin_name_dir_of. Qed.
+Print Assumptions C28_discover_prefix_inside_name.
+
+(* Hyphen ranges (reachable from `version:` in octosql.yml and from `plugin install name@lo - hi`): a range is
+   exactly the conjunction of ">= lo" and "<= hi" with the library's dirty-version rules for both bounds; every
+   theorem above is stated for the rewritten constraint (check (desugar src)). *)
+Theorem C28_hyphen_range : forall lo hi v,
+  check (desugar [[CR lo hi]]) v =
+  check1 v (parse_constraint (mkCS OpGe (vs_maj lo) (vs_rest lo) (vs_pre lo))) &&
+  check1 v (parse_constraint (mkCS OpLe (vs_maj hi) (vs_rest hi) (vs_pre hi))).
+Proof. intros lo hi v. unfold check, desugar. simpl. rewrite andb_true_r, orb_false_r. reflexivity. Qed.
+Print Assumptions C28_hyphen_range.
+
 (* The pinned code keeps the text after the LAST dash: core/octosql-plugin-my-plugin is listed as "plugin". *)
 Theorem C28_discover_refuted : exists it,
   no_staging it = true /\ tree_parses it = true /\
